@@ -214,6 +214,10 @@ def build_harness(P, result):
         for fn in os.listdir(vlib):
             if fn.endswith(".go"):
                 replace[os.path.join(REPO, "internal", "verifdrv", "vlib", fn)] = os.path.join(vlib, fn)
+    vs = os.path.join(VERIF, "harness", "vsched")
+    for fn in os.listdir(vs):
+        if fn.endswith(".go"):
+            replace[os.path.join(REPO, "internal", "vsched", fn)] = os.path.join(vs, fn)
     for rel in getattr(P, "INPKG", []):
         src = os.path.join(VERIF, "harness", "inpkg", rel)
         if not os.path.exists(src):
@@ -229,11 +233,22 @@ def build_harness(P, result):
             dst = os.path.join(outdir, rel.replace("/", "__"))
             if os.path.exists(dst):
                 os.remove(dst)
-            rc, so, se, _ = run([tool, os.path.join(REPO, rel), dst] + list(getattr(P, "INSTRUMENT_ARGS", [])))
+            sites = dst + ".sites.json"
+            rc, so, se, _ = run([tool, os.path.join(REPO, rel), dst, "-sites", sites] + list(getattr(P, "INSTRUMENT_ARGS", {}).get(rel, [])))
             if rc != 0:
                 result["broken"].append({"kind": "correspondence", "what": f"yieldinject failed on {rel}", "detail": se[-1500:]})
                 return None
             replace[os.path.join(REPO, rel)] = dst
+            # fact check: the sequence of atomic sites per function the model was written against
+            expected = getattr(P, "SITES", {})
+            got = {f["func"]: f["sites"] for f in json.load(open(sites))["funcs"]}
+            for fn, labs in expected.items():
+                if fn.split(":")[0] != rel:
+                    continue
+                g = got.get(fn.split(":")[1])
+                if g != labs:
+                    result["broken"].append({"kind": "correspondence", "what": f"atomic-operation sites of {fn} differ from the sequence the model mirrors",
+                                             "detail": f"expected {labs} got {g}"})
     ov = os.path.join(BUILD, f"overlay_{P.ID}.json")
     with open(ov, "w") as f:
         json.dump({"Replace": replace}, f, indent=1)
